@@ -16,13 +16,13 @@ NA = {
 # id: (level, technique, text, note, design_ref)
 CLAIMED = {
  "C02": ("exploration",
-   "deterministic simulation: seeded write programs on a simulated disk (5 sink kinds, 2 read personalities), model-based oracle, tape shrinking",
+   "deterministic simulation: seeded write programs on a simulated disk (5 sink kinds, 2 read personalities), model-based oracle incl. caller-side snapshots, invalid requests that must be refused or served correctly, tape shrinking",
    "Seeded search over write programs x configurations x sink kinds x read personalities against a reference model of what was handed to the Writer; every failure is minimised and replayable. A clean batch is evidence, not proof; the sink-kind and read-personality dimensions are what the repository's tests hold constant.",
    "Trusts the harness model (deep snapshots, semantic equality) and the generators' notion of a valid program; programs the Writer rejects are skipped and a skip rate above 5% makes the check exit 2.",
    "DESIGN.md section 4 C02"),
 
  "C19": ("fault_enumeration",
-   "deterministic simulation with exhaustive fault-point enumeration: per seeded document every ReadAt index (fail-from-k, fail-only-k, partial-data-with-error) and every sink Write/Seek index (error once, persistent, short write)",
+   "deterministic simulation with exhaustive fault-point enumeration: per seeded document (library-written incl. encryption, object streams, image streams, bulk programs on the write side; hand-serialised object graphs with indirect /Filter, /DecodeParms, /Length on the read side) every ReadAt index (fail-from-k, fail-only-k, partial-data-with-error) and every sink Write/Seek index (error once, persistent, short write); the scripted read workload includes a decode function that itself reads, a second decode of every reference through the same Extractor, and a Copier step",
    "For each generated document the fault space named by the property (index k of the failing call) is enumerated completely in each mode and the scripted workload is re-run; the oracle compares every call's result with the fault-free result or requires an error that wraps the injected one and is not IsMalformed. Exhaustive in k per document, seeded over documents and configurations.",
    "Trusts that the scripted workload (open, Get, DecodeStream+drain, cached Decode, meta data) represents the calls named in the statement; only ReadAt/Write/Seek are failed; Flush of self-flushing sinks is never failed. Write-side programs with more than 600 sink operations are sampled with a stride (counted by a probe).",
    "DESIGN.md section 4 C19"),
@@ -33,7 +33,7 @@ CLAIMED = {
    "Trusts strictpdf as the reading of the specification (it checks exactly the clauses of the statement and nothing more; e.g. it does not require the xref stream to list itself). Stream data behind LZW/TIFF predictor is decoded with the library's filter on independently extracted raw bytes.",
    "DESIGN.md section 4 C03"),
  "C20": ("fault_enumeration",
-   "deterministic simulation with exhaustive crash-point enumeration: per seeded document every prefix length 0..len of the persisted image and 9 xref-damage variants are scanned; true object extents from the independent strict parser",
+   "deterministic simulation with exhaustive crash-point enumeration: per seeded document every prefix length 0..len of the persisted image (documents with long streams: around object boundaries and on a coarse grid) and 9 xref-damage variants are scanned; true object extents from the independent strict parser; complete objects read through FileInfo.Read and through the Reader of MakeReader",
    "For each generated document every truncation offset is enumerated (a crash at any byte of the persisted image) plus overwritten xref/startxref ranges; the oracle requires SequentialScan to succeed whenever a complete object exists, every complete object to be listed at its true offset, not broken, and FileInfo.Read to yield the written value.",
    "Object extents come from strictpdf on the intact image. Documents are restricted as the quantifier says (no encryption, no object streams, no EOL bytes in strings or bodies). Streams whose indirect /Length object is cut off are compared byte-wise only when the extent is unambiguous.",
    "DESIGN.md section 4 C20"),
